@@ -1274,7 +1274,9 @@ static void
 ypr_xmlns(struct lys_ypr_ctx *pctx, const struct lys_module *module, uint16_t indent)
 {
     ly_print_(pctx->out, "%*sxmlns=\"%s\"", indent + INDENT, YIN_NS_URI);
-    ly_print_(pctx->out, "\n%*sxmlns:%s=\"%s\"", indent + INDENT, module->prefix, module->ns);
+    ly_print_(pctx->out, "\n%*sxmlns:%s=\"", indent + INDENT, module->prefix);
+    lyxml_dump_text(pctx->out, module->ns, 1);
+    ly_print_(pctx->out, "\"");
 }
 
 static void
@@ -1284,7 +1286,9 @@ ypr_import_xmlns(struct lys_ypr_ctx *pctx, const struct lysp_module *modp, uint1
 
     LY_ARRAY_FOR(modp->imports, u){
         if (!(modp->imports[u].flags & LYS_INTERNAL)) {
-            ly_print_(pctx->out, "\n%*sxmlns:%s=\"%s\"", indent + INDENT, modp->imports[u].prefix, modp->imports[u].module->ns);
+            ly_print_(pctx->out, "\n%*sxmlns:%s=\"", indent + INDENT, modp->imports[u].prefix);
+            lyxml_dump_text(pctx->out, modp->imports[u].module->ns, 1);
+            ly_print_(pctx->out, "\"");
         }
     }
 }
